@@ -99,7 +99,8 @@ def main(tier):
     def start(i, j):
         j = dict(j)
         j["log"] = os.path.join(tmpd, f"run{i}.log")
-        p = subprocess.Popen([sys.executable, "-m", "verif.pool_driver"], stdin=subprocess.PIPE, stdout=subprocess.PIPE, stderr=subprocess.PIPE, text=True, env=env, cwd=common.VERIF_DIR)
+        j["out"] = os.path.join(tmpd, f"run{i}.json")
+        p = subprocess.Popen([sys.executable, "-m", "verif.pool_driver"], stdin=subprocess.PIPE, stdout=subprocess.DEVNULL, stderr=open(os.path.join(tmpd, f"run{i}.err"), "w"), text=True, env=env, cwd=common.VERIF_DIR)
         p.stdin.write(json.dumps(j))
         p.stdin.close()
         return (i, p)
@@ -113,11 +114,13 @@ def main(tier):
         for item in list(running):
             i, p, t0 = item
             if p.poll() is not None:
-                out = p.stdout.read()
                 try:
-                    results[i] = json.loads(out)
+                    results[i] = json.load(open(os.path.join(tmpd, f"run{i}.json")))
                 except Exception:
-                    results[i] = {"error": p.stderr.read()[-600:]}
+                    try:
+                        results[i] = {"error": open(os.path.join(tmpd, f"run{i}.err")).read()[-600:] or "no result file"}
+                    except Exception:
+                        results[i] = {"error": "no result"}
                 running.remove(item)
             elif _t.time() - t0 > watchdog:
                 p.kill()
